@@ -7,23 +7,25 @@ from . import dag as dagm, prove, smt, build
 
 VERIF = build.VERIF
 
+_DAGCACHE = {}
 def _prove_entry(args):
-    fn, ename, opts = args
+    fn, ename, pidx, opts = args
     try:
-        entries = [e for e in dagm.load(fn) if e.name == ename]
-        e = entries[0]
-        out = []
-        for p in e.paths:
-            if p.outcome == 'limit':
-                out.append({'path': p.idx, 'outcome': 'limit', 'claims': {}, 'feasible': None, 'lemmas': 0, 'lemmas_ok': 0, 'side': 0, 'side_ok': 0, 'undecided': ['path-limit'], 'candidates': []})
-                continue
+        if fn not in _DAGCACHE:
+            _DAGCACHE.clear(); _DAGCACHE[fn] = {e.name: e for e in dagm.load(fn)}
+        e = _DAGCACHE[fn][ename]
+        p = e.paths[pidx]
+        q0 = smt.STATS.queries; t0 = smt.STATS.time; p0 = smt.STATS.procs
+        if p.outcome == 'limit':
+            r = {'path': p.idx, 'outcome': 'limit', 'claims': {}, 'feasible': None, 'lemmas': 0, 'lemmas_ok': 0, 'side': 0, 'side_ok': 0, 'undecided': ['path-limit'], 'candidates': [], 'cf_error': 'path decision limit reached'}
+        else:
             r = prove.prove_path(e, p, opts)
-            C = r.pop('_C', None)
+            r.pop('_C', None)
             r['eps_switch'] = _eps_switch(e, p)
-            out.append(r)
-        return (fn, ename, out, smt.STATS.__dict__.copy(), None)
+        st = {'queries': smt.STATS.queries - q0, 'time': smt.STATS.time - t0, 'procs': smt.STATS.procs - p0}
+        return (fn, ename, pidx, r, st, None)
     except Exception:
-        return (fn, ename, [], smt.STATS.__dict__.copy(), traceback.format_exc())
+        return (fn, ename, pidx, None, {'queries': 0, 'time': 0, 'procs': 0}, traceback.format_exc())
 
 def _eps_switch(e, p):
     eps = prove.eps_const_ids(e.nodes)
@@ -79,13 +81,16 @@ def run_sym(res, specs, opts):
         dagfiles[k] = fn
         for e in dagm.load(fn):
             if e.truncated: res.undecided.append('%s: path enumeration truncated' % e.name)
-            jobs.append((fn, e.name, opts))
+            for p in e.paths: jobs.append((fn, e.name, p.idx, opts))
     results = {}
     with ProcessPoolExecutor(opts.get('procs', 8)) as ex:
-        for fn, ename, out, st, err in ex.map(_prove_entry, jobs):
+        for fn, ename, pidx, r, st, err in ex.map(_prove_entry, jobs):
             if err:
-                res.errors.append({'what': 'prover exception', 'entry': ename, 'diag': err[-3000:]}); continue
-            results[(fn, ename)] = out
+                res.errors.append({'what': 'prover exception', 'entry': ename, 'path': pidx, 'diag': err[-3000:]}); continue
+            results.setdefault((fn, ename), {})[pidx] = r
+            if os.environ.get('VERIF_PROGRESS'):
+                from collections import Counter
+                print('  [%5.0fs] %s p%d feas=%s lem %d/%d cf %.1fs tot %.1fs %s %s' % (time.time() - res.t0, ename, pidx, r.get('feasible'), r.get('lemmas_ok', 0), r.get('lemmas', 0), r.get('cf_time', 0), r.get('time', 0), dict(Counter(r.get('claims', {}).values())), r.get('cf_error', '')), file=sys.stderr, flush=True)
             res.solver['queries'] += st['queries']; res.solver['time'] += st['time']; res.solver['procs'] += st['procs']
     return specs, built, dagfiles, results
 
@@ -111,7 +116,9 @@ def finish_sym(res, specs, built, dagfiles, results, opts):
             if out is None: continue
             res.entries += 1
             res.functions.add(e.name)
-            for p, r in zip(e.paths, out):
+            for p in e.paths:
+                r = out.get(p.idx)
+                if r is None: continue
                 res.paths += 1
                 for ax in r.get('axioms', []): res.axioms.add(ax)
                 if r.get('cf_error'):
